@@ -110,3 +110,127 @@ Print Assumptions C06_nested_ayield.
 Theorem C06_nested_ayield_all : forall (n : nat) (c : coro), eqvn (deepen n c) c.
 Proof. exact deepen_eqvn. Qed.
 Print Assumptions C06_nested_ayield_all.
+
+(* ------------------------------------------------------------------------
+   "... and the same holds when iterated synchronously with aiter_sync."
+
+   [aiter_ag fixd w (ag_new c s, None) take] / [aiter_go fixd w (go_new c s, None) take]
+   (Coro/AiterGen.v): asynkit's aiter_sync -- C05's await_sync(helper()) loop --
+   over the native async generator with body c, resp. over GeneratorObject()(c):
+   ONE driver, written over the history step function ([ag_hstep] / [go_hstep]):
+   it starts __anext__() ([HStart (CSend VNone)]), and if that yields to the
+   absent loop it throws SynchronousAbort into the suspended awaitable
+   ([HResume (Throw SynchronousAbort)]) -- a particular consumer history, chosen
+   step by step from the outcomes, so C06_step is the bridge.  The consumer takes
+   at most [take] values.  Result: [ii_events] the body's events interleaved with
+   [item v] for every value handed out, [ii_end] (AEnd normal end / ARaise what
+   await_sync raised / ATaken), [ii_state] the iterator object afterwards,
+   [ii_world] the futures, [ii_ignored] = some __anext__() swallowed the abort
+   and suspended again (outside the domain of property C05).
+
+   For EVERY body tree c that never raises asynkit's OOBData, every store, future
+   world and [take]:
+   * inside C05's domain ([ii_ignored] = false on the native run; then also on
+     the other): the two iterations hand out the same values in the same order
+     between the same body events (handlers, finally blocks) -- [ii_events] are
+     EQUAL --, end the same way ([abs_end]: exhaustion / consumer stopped / the
+     same exception by type and cause type, resp. SynchronousError of the same
+     variant with a cause of the same type, raised at the same point), leave
+     the futures alike, and leave the iterators in corresponding states ([proj]:
+     same ag_running, same frame state, same store; nothing suspended);
+   * outside (the body swallowed the abort and suspended again; then
+     helper.close() is issued, the one operation that is not a step of a C06
+     history): everything up to that point is equal and both have
+     SynchronousError chained to "coroutine ignored SynchronousAbort" pending;
+     CPython 3.12's asend.close() does not resume the generator (left suspended,
+     ag_running set), while asynkit's chain of coroutines closes the body:
+     [go_closep] on the corresponding GeneratorObjectIterator -- its events are
+     appended, and if it raises, that exception replaces the SynchronousError.
+     Example ex_aiter_ignored (AiterGenProofs.v) shows this is a real difference. *)
+From Asynkit Require Import Coro.AwaitSync Coro.AiterGen Coro.AiterGenProofs.
+
+Theorem C06_aiter_sync : forall (c : coro) (s : store) (fixd : bool) (w : fworld) (take : nat),
+  oob_free c ->
+  let ra := aiter_ag fixd w (ag_new c s, None) take in
+  let rg := aiter_go fixd w (go_new c s, None) take in
+  ii_world ra = ii_world rg /\ ii_ignored ra = ii_ignored rg /\
+  if ii_ignored ra then
+    let '(evc, ce, stc) := go_closep (proj (fst (ii_state ra)) (Some PSend), Some PSend) in
+    ii_end ra = ARaise (SySyncError false (Some rt_ignored_abort)) /\
+    snd (ii_state ra) = None /\
+    ii_events rg = ii_events ra ++ evc /\
+    ii_end rg = match ce with
+                | None => ii_end ra
+                | Some e => if is_sai e then AEnd else ARaise (SyCloseRaised e)
+                end /\
+    ii_state rg = stc
+  else
+    ii_events ra = ii_events rg /\ abs_end (ii_end ra) = abs_end (ii_end rg) /\
+    snd (ii_state ra) = None /\ ii_state rg = (proj (fst (ii_state ra)) None, None) /\
+    inv (fst (ii_state ra)) None.
+Proof. exact genobj_aiter_sync. Qed.
+Print Assumptions C06_aiter_sync.
+
+(* One await_sync(helper()) from ANY pair of corresponding states (the step the
+   induction over [take] uses): [inv a None] = reachable native state with
+   nothing suspended, [proj a None] the corresponding GeneratorObjectIterator. *)
+Theorem C06_await_sync_step : forall fixd w a, inv a None ->
+  let ra := await_sync_ag fixd w (a, None) in
+  let rg := await_sync_go fixd w (proj a None, None) in
+  si_world ra = si_world rg /\ si_ignored ra = si_ignored rg /\
+  if si_ignored ra then
+    let '(evc, ce, stc) := go_closep (proj (fst (si_state ra)) (Some PSend), Some PSend) in
+    si_out ra = SySyncError false (Some rt_ignored_abort) /\
+    snd (si_state ra) = None /\
+    si_events rg = si_events ra ++ evc /\
+    si_out rg = match ce with None => si_out ra | Some e => SyCloseRaised e end /\
+    si_state rg = stc
+  else
+    si_events ra = si_events rg /\ abs_sync (si_out ra) = abs_sync (si_out rg) /\
+    snd (si_state ra) = None /\ si_state rg = (proj (fst (si_state ra)) None, None) /\
+    inv (fst (si_state ra)) None.
+Proof. exact await_sync_sim. Qed.
+Print Assumptions C06_await_sync_step.
+
+(* ------------------------------------------------------------------------
+   Trace-level lifting of nested ayield (C06_nested_ayield / _all are per node
+   resp. tree level).  [deepen n c] = the body c with EVERY `r = yield d`
+   replaced by `r = await g.ayield(d)` issued under n pass-through coroutine
+   frames.  A history "throws no StopIteration" ([nsi_history]): no
+   athrow(StopIteration(..)) and no throw(StopIteration(..)) into a suspended
+   awaitable (the one input that oob()'s generator frame converts, see
+   ex_nested_stopiter_differs in GenObjNestedTraces.v). *)
+From Asynkit Require Import Coro.GenObjNestedTraces.
+
+(* For EVERY body, depth, store and EVERY consumer history that throws no
+   StopIteration, GeneratorObject()(deepen n c) and GeneratorObject()(c) produce
+   the SAME trace: step by step the same body events, the same exact outcome
+   (yielded / returned value, exception incl. message kind), ag_running,
+   coroutine state and "awaitable left suspended" (equality of [hobs] lists). *)
+Theorem C06_nested_ayield_traces : forall (n : nat) (c : coro) (s : store) (h : list hop),
+  forallb (fun op => match op with
+                     | HStart (CThrow (StopIteration _)) | HResume (Throw (StopIteration _)) => false
+                     | _ => true
+                     end) h = true ->
+  go_trace (go_new (deepen n c) s, None) h = go_trace (go_new c s, None) h.
+Proof. exact nested_ayield_traces_spelled. Qed.
+Print Assumptions C06_nested_ayield_traces.
+
+(* The general fact behind it: two bodies that are bisimilar for every consumer
+   that never throws StopIteration ([eqvn]) give equal GeneratorObject traces. *)
+Theorem C06_eqvn_traces : forall (c c' : coro) (s : store) (h : list hop),
+  eqvn c c' -> nsi_history h ->
+  go_trace (go_new c s, None) h = go_trace (go_new c' s, None) h.
+Proof. exact eqvn_go_traces. Qed.
+Print Assumptions C06_eqvn_traces.
+
+(* Composition with C06_equiv_traces: the GeneratorObject whose body ayields from
+   depth n against the NATIVE async generator whose body yields -- whole traces,
+   for every body / history of C06's domain on which the native object reaches
+   no stop state.  ([ok_history] already excludes athrow(StopIteration).) *)
+Theorem C06_nested_ayield_native : forall (n : nat) (c : coro) (s : store) (h : list hop),
+  oob_free c -> ok_history h -> nsi_history h ->
+  never_stops (ag_new c s, None) h = true ->
+  Forall2 same_obs (ag_trace (ag_new c s, None) h) (go_trace (go_new (deepen n c) s, None) h).
+Proof. exact nested_ayield_native. Qed.
+Print Assumptions C06_nested_ayield_native.
